@@ -119,7 +119,7 @@ pub fn cold_starts(cfg: &RunCfg, bin: &std::path::Path, count: usize, stats: &mu
         };
         let mut st = Stats::default();
         st.frozen = true;
-        let trace = match crate::drive::run_case(&case, &WalkOpts { profile: Profile::Fight, expand: None, follow_norep: false, inject: crate::drive::Inject::No, interfere: false }, &mut Nop, &mut st) {
+        let trace = match crate::drive::run_case(&case, &WalkOpts { profile: Profile::Fight, expand: None, follow_norep: false, inject: crate::drive::Inject::No, interfere: false, play_on: false }, &mut Nop, &mut st) {
             Ok((_, t)) => t.actions,
             Err(_) => continue,
         };
